@@ -313,6 +313,63 @@ def r2_r4(ctx, repo, cname, info, k_of):
             ctx.inconclusive("R2", C, where(mod, fn), "m=%d: common factor enclosure %r too wide" % (m, f), key="pareto-factor-m%d" % m)
 
 
+def r5_points(ctx, repo, cname, k):
+    """refutation only: rigorous interval evaluation of evaluate() at a few rational points of the box for m = 2..5; the family
+    identity (sum = (1+g)/2, norm = 1+g with the family's own distance function g) must lie inside the enclosure.  A
+    disjoint enclosure is a definite violation at that point; agreement proves nothing and is reported as such."""
+    cls = repo.cls(cname, "benchmark_pareto")
+    mod = cls.module
+    fn = cls.methods["evaluate"]
+    C = "%s.evaluate" % cname
+    import math
+    from fractions import Fraction
+    checked = 0
+    for m in (2, 3, 4, 5):
+        n = m + k - 1
+        for variant in (0, 1):
+            xs = [float(Fraction(2 * j + 3, 2 * n + 7)) if variant == 0 else 0.15 + 0.7 * ((j * 7) % 10) / 10.0 for j in range(n)]
+            try:
+                val, env, it = eval_box(cls, m, n, [I(x) for x in xs])
+            except (DomainError, Unsupported, Exception):
+                continue
+            if not isinstance(val, list) or len(val) != m:
+                continue
+            tail = [I(x) for x in xs[n - k:]]
+            half = I(0.5)
+            if cname in ("DTLZI", "DTLZIII"):
+                g = I(float(k))
+                for t in tail:
+                    d = t - half
+                    g = g + (d.sqr() - (I(20.0) * I(math.pi).hull(I(math.nextafter(math.pi, 4.0))) * d).cos())
+                g = I(100.0) * g
+            else:
+                g = I(0.0)
+                for t in tail:
+                    g = g + (t - half).sqr()
+            if cname == "DTLZI":
+                lhs = I(0.0)
+                for v in val:
+                    lhs = lhs + as_iv(v)
+                rhs = (I(1.0) + g) * I(0.5)
+                what = "sum of the objectives"
+            else:
+                lhs = I(0.0)
+                for v in val:
+                    lhs = lhs + as_iv(v).sqr()
+                rhs = (I(1.0) + g).sqr()
+                what = "squared norm of the objective vector"
+            checked += 1
+            scale = max(abs(rhs.lo), abs(rhs.hi), 1.0)
+            if lhs.lo > rhs.hi + 1e-9 * scale or lhs.hi < rhs.lo - 1e-9 * scale:
+                ctx.violated("R5", C, where(mod, fn), "m=%d, x=%s: the %s is in [%.9g, %.9g] but the family identity requires [%.9g, %.9g]" % (
+                    m, ["%.4g" % x for x in xs[:m]] + ["..."], what, lhs.lo, lhs.hi, rhs.lo, rhs.hi), key="identity-at-points")
+                return
+    if checked:
+        ctx.holds("R5", C, where(mod, fn), "the family identity is consistent with the rigorous enclosures at %d sample points (m = 2..5); this rule can only refute" % checked, key="identity-at-points")
+    else:
+        ctx.inconclusive("R5", C, where(mod, fn), "evaluate() could not be enclosed at the sample points", key="identity-at-points")
+
+
 def distance_range(ctx, repo, cname, info):
     """the distance function reads exactly the last k variables"""
     if info is None:
@@ -448,7 +505,8 @@ def r3_shapes(ctx, repo):
 def run(ctx):
     for rid, doc in (("R1", "DTLZ telescoping schema (index equality, same angle, common factor once, distance range)"),
                      ("R2", "common factor = 1 (1/2) with distance variables at 0.5 for all position values"),
-                     ("R3", "ZDT1 / bi-objective identities as rational normal forms"), ("R4", "objectives non-negative on the box (interval evaluation)")):
+                     ("R3", "ZDT1 / bi-objective identities as rational normal forms"), ("R4", "objectives non-negative on the box (interval evaluation)"),
+                     ("R5", "refutation: family identity inside rigorous enclosures at sample points, m = 2..5")):
         ctx.rule(rid, doc)
     ctx.axiom("telescoping: sum_i [prod_{j<m-i-1} c_j] s_{m-i-1} (s_m := 1) equals 1 when c_j + s_j = 1, and the squares sum to 1 when c_j^2 + s_j^2 = 1")
     ctx.assume("the identities as numeric facts at concrete points are not decided; interval evaluations use m in {2,3}")
@@ -458,6 +516,7 @@ def run(ctx):
         info = r1_schema(ctx, repo, cname)
         distance_range(ctx, repo, cname, info)
         r2_r4(ctx, repo, cname, info, k_of)
+        r5_points(ctx, repo, cname, k_of(2) - 1)
         n += 1
     ctx.count("dtlz_classes", n)
     r3_shapes(ctx, repo)
